@@ -203,7 +203,8 @@ def check_vdw(case, ctx):
 
 
 crit_strategy = st.fixed_dictionaries({'Tc': logf(5, 1000), 'Pc': logf(1, 300),
-                                       'n': logf(1e-3, 1e3)})
+                                       'n': logf(1e-3, 1e3), 'fa': logf(0.25, 4), 'fb': logf(0.25, 4),
+                                       'edit': st.sampled_from(['a', 'b', 'ab'])})
 
 
 def check_crit(case, ctx):
@@ -229,6 +230,20 @@ def check_crit(case, ctx):
     if not (abs(Pm - Pc) < 20 * h ** 3 * Pc and abs(Pp - Pc) < 20 * h ** 3 * Pc and Pm >= Pc >= Pp):
         ctx.fail('C20.crit/not-an-inflection', 'P(Vc-)=%r Pc=%r P(Vc+)=%r' % (Pm, Pc, Pp))
     ctx.close('C20.crit/Vm(Tc,Pc)', eos.get_Vm(T=Tc, P=Pc, gas_phase=True), 3 * eos.b, rtol=1e-3)
+    # a and b are the object's public parameters: after they are reassigned the critical constants follow them
+    # (the object has no other state), i.e. they equal those of a freshly built object and the textbook relations
+    a2 = eos.a * (case.get('fa', 1.) if 'a' in case.get('edit', 'ab') else 1.)
+    b2 = eos.b * (case.get('fb', 1.) if 'b' in case.get('edit', 'ab') else 1.)
+    eos.a, eos.b = a2, b2
+    fresh = vanDerWaalsEOS(a=a2, b=b2)
+    ctx.label('edit:' + case.get('edit', 'ab'))
+    ctx.close('C20.crit/edited:Tc', eos.get_Tc(), 8. * a2 / (27. * R * b2), rtol=1e-12)
+    ctx.close('C20.crit/edited:Pc', eos.get_Pc(), a2 / (27. * b2 ** 2) / BAR, rtol=1e-12)
+    ctx.close('C20.crit/edited:Vc', eos.get_Vc(n=n), 3 * n * b2, rtol=1e-14)
+    ctx.close('C20.crit/edited=fresh', [eos.get_Tc(), eos.get_Pc(), eos.get_Vc(), eos.get_P(T=Tc, V=Vc, n=n)],
+              [fresh.get_Tc(), fresh.get_Pc(), fresh.get_Vc(), fresh.get_P(T=Tc, V=Vc, n=n)], rtol=1e-14)
+    Tc2, Pc2 = fresh.get_Tc(), fresh.get_Pc()
+    ctx.close('C20.crit/edited:P(Tc,Vc)', eos.get_P(T=Tc2, V=3 * n * b2, n=n), Pc2, rtol=1e-10)
 
 
 CLAUSES = [
